@@ -391,4 +391,300 @@ theorem chunkC_pieces {f f' : Nat} {s s₁ s₂ : Sim} {T : Int} {ps : List Piec
         simp only [runPiece, Option.some.injEq] at hsr; subst hsr
         exact chunkC_next h0 hp hg
 
+/-! ### the uninterrupted run is a function of (state, horizon): fuel is a termination device only -/
+
+theorem runUntilC_fuel_succ {f : Nat} {s s' : Sim} {T : Int} (h : runUntilC f s T = some s') :
+    runUntilC (f+1) s T = some s' := by
+  induction f generalizing s with
+  | zero => simp [runUntilC] at h
+  | succ f ih =>
+    cases hp : popLive s.pending with
+    | none => rw [runUntilC_none hp] at h ⊢; exact h
+    | some p =>
+      obtain ⟨e, rest⟩ := p
+      by_cases hT : e.time ≤ T
+      · rw [runUntilC_due hp hT] at h ⊢; exact ih h
+      · rw [runUntilC_late hp hT] at h ⊢; exact h
+
+theorem runUntilC_fuel_le {f g : Nat} {s s' : Sim} {T : Int} (hfg : f ≤ g) (h : runUntilC f s T = some s') :
+    runUntilC g s T = some s' := by
+  induction hfg with
+  | refl => exact h
+  | step _ ih => exact runUntilC_fuel_succ ih
+
+/-- two terminating uninterrupted runs from the same state to the same horizon end in the same state -/
+theorem runUntilC_det {f g : Nat} {s a b : Sim} {T : Int} (ha : runUntilC f s T = some a) (hb : runUntilC g s T = some b) :
+    a = b := by
+  have h1 := runUntilC_fuel_le (Nat.le_max_left f g) ha
+  have h2 := runUntilC_fuel_le (Nat.le_max_right f g) hb
+  rw [h1] at h2; exact Option.some.inj h2
+
+theorem runUntil_det {f g : Nat} {s a b : Sim} {T : Int} (ha : runUntil f s T = some a) (hb : runUntil g s T = some b) :
+    a = b := by
+  have h1 := runUntil_fuel_le (Nat.le_max_left f g) ha
+  have h2 := runUntil_fuel_le (Nat.le_max_right f g) hb
+  rw [h1] at h2; exact Option.some.inj h2
+
+theorem runUntilC_calm {f : Nat} {s s' : Sim} {T : Int} (h0 : s.raised = none) (h : runUntilC f s T = some s') :
+    s'.raised = none := by
+  induction f generalizing s with
+  | zero => simp [runUntilC] at h
+  | succ f ih =>
+    cases hp : popLive s.pending with
+    | none => rw [runUntilC_none hp] at h; simp only [Option.some.injEq] at h; subst h; exact h0
+    | some p =>
+      obtain ⟨e, rest⟩ := p
+      by_cases hT : e.time ≤ T
+      · rw [runUntilC_due hp hT] at h; exact ih rfl h
+      · rw [runUntilC_late hp hT] at h; simp only [Option.some.injEq] at h; subst h; exact h0
+
+theorem resume_fuel_le {f g n : Nat} {s s' : Sim} {T : Int} (hfg : f ≤ g) (h : resume f n s T = some s') :
+    resume g n s T = some s' := by
+  induction n generalizing s with
+  | zero => simp [resume] at h
+  | succ n ih =>
+    simp only [resume] at h ⊢
+    split at h
+    · simp at h
+    · rename_i s₁ h₁
+      simp only [runUntil_fuel_le hfg h₁]
+      split at h
+      · rename_i hx; rw [if_pos hx]; exact ih h
+      · rename_i hx; rw [if_neg hx]; exact h
+
+theorem resume_calls_le {f n m : Nat} {s s' : Sim} {T : Int} (hnm : n ≤ m) (h : resume f n s T = some s') :
+    resume f m s T = some s' := by
+  induction n generalizing s m with
+  | zero => simp [resume] at h
+  | succ n ih =>
+    cases m with
+    | zero => omega
+    | succ m =>
+      simp only [resume] at h ⊢
+      split at h
+      · simp at h
+      · rename_i s₁ h₁
+        split at h
+        · rename_i hx; rw [if_pos hx]; exact ih (Nat.le_of_succ_le_succ hnm) h
+        · rename_i hx; rw [if_neg hx]; exact h
+
+/-- one `run_until(T)` call seen from the uninterrupted run: it returns normally with the uninterrupted run's result, or it is
+    cut short in a state from which (the exception caught) the uninterrupted run needs strictly less fuel -/
+theorem runUntilC_split {g : Nat} {s s' : Sim} {T : Int} (h0 : s.raised = none) (h : runUntilC g s T = some s') :
+    (runUntil g s T = some s' ∧ s'.raised = none) ∨
+    ∃ s₁ g', g' < g ∧ runUntil g s T = some s₁ ∧ s₁.raised.isSome = true ∧ runUntilC g' (caught s₁) T = some s' := by
+  induction g generalizing s with
+  | zero => simp [runUntilC] at h
+  | succ g ih =>
+    cases hp : popLive s.pending with
+    | none =>
+      rw [runUntilC_none hp] at h
+      left; rw [runUntil_none hp]; refine ⟨h, ?_⟩
+      simp only [Option.some.injEq] at h; subst h; exact h0
+    | some p =>
+      obtain ⟨e, rest⟩ := p
+      by_cases hT : e.time ≤ T
+      · rw [runUntilC_due hp hT] at h
+        cases hxx : (exec (popped s e rest) e).raised.isSome with
+        | true => exact Or.inr ⟨_, g, Nat.lt_succ_self g, runUntil_due_raised hp hT hxx, hxx, h⟩
+        | false =>
+          have hcalm := raised_none_of_isSome_false hxx
+          rw [caught_of_calm hcalm] at h
+          rcases ih hcalm h with ⟨hr, hn⟩ | ⟨s₁, g', hg', hr, hx, hc⟩
+          · exact Or.inl ⟨by rw [runUntil_due hp hT hxx]; exact hr, hn⟩
+          · exact Or.inr ⟨s₁, g', Nat.lt_succ_of_lt hg', by rw [runUntil_due hp hT hxx]; exact hr, hx, hc⟩
+      · rw [runUntilC_late hp hT] at h
+        left; rw [runUntil_late hp hT]; refine ⟨h, ?_⟩
+        simp only [Option.some.injEq] at h; subst h; exact h0
+
+theorem resume_of_runUntilC_aux (G : Nat) : ∀ g, g ≤ G → ∀ (s s' : Sim) (T : Int), s.raised = none →
+    runUntilC g s T = some s' → ∃ n, resume g n s T = some s' := by
+  induction G with
+  | zero =>
+    intro g hg s s' T _ h
+    have : g = 0 := by omega
+    subst this; simp [runUntilC] at h
+  | succ G ih =>
+    intro g hg s s' T h0 h
+    rcases runUntilC_split h0 h with ⟨hr, hn⟩ | ⟨s₁, g', hg', hr, hx, hc⟩
+    · exact ⟨1, by simp [resume, hr, hn]⟩
+    · obtain ⟨n, hn⟩ := ih g' (by omega) (caught s₁) s' T rfl hc
+      exact ⟨n+1, by simp only [resume, hr, hx, if_true]; exact resume_fuel_le (Nat.le_of_lt hg') hn⟩
+
+/-- **progress**: when the uninterrupted run terminates, so does the program that calls `run_until(T)` again after every
+    exception — with the same fuel per call, after finitely many calls — and it ends in the same state -/
+theorem resume_of_runUntilC {g : Nat} {s s' : Sim} {T : Int} (h0 : s.raised = none) (h : runUntilC g s T = some s') :
+    ∃ n, resume g n s T = some s' := resume_of_runUntilC_aux g g (Nat.le_refl g) s s' T h0 h
+
+theorem runPiecesC_inv {f : Nat} {s s₁ : Sim} {ps : List Piece} (hw : WF s) (h0 : s.raised = none)
+    (h : runPiecesC f s ps = some s₁) : WF s₁ ∧ s₁.raised = none := by
+  induction ps generalizing s with
+  | nil => simp only [runPiecesC, Option.some.injEq] at h; subst h; exact ⟨hw, h0⟩
+  | cons p ps ih =>
+    simp only [runPiecesC] at h
+    split at h
+    · simp at h
+    · rename_i sm hsm
+      simp only [runPieceC, Option.map_eq_some_iff] at hsm
+      obtain ⟨sr, hsr, rfl⟩ := hsm
+      exact ih (caught_wf (runPiece_wf hw hsr)) rfl h
+
+/-! ### after a normal return nothing at all is left that is due; what the trace of an aborted run ends with -/
+
+/-- after a `run_until(T)` that returns normally EVERY entry left on the list — cancelled ones included — lies after `T`
+    (the cancelled entries in front of the first live event beyond `T` were thrown away by the pop) -/
+theorem runUntil_nothing_due {f : Nat} {s s' : Sim} {T : Int} (hw : WF s) (hr : runUntil f s T = some s')
+    (hn : s'.raised = none) : ∀ y ∈ s'.pending, T < y.time := by
+  induction f generalizing s with
+  | zero => simp [runUntil] at hr
+  | succ f ih =>
+    cases hp : popLive s.pending with
+    | none => rw [runUntil_none hp] at hr; simp only [Option.some.injEq] at hr; subst hr; simp
+    | some p =>
+      obtain ⟨e, rest⟩ := p
+      obtain ⟨_, hlt, _⟩ := popLive_spec hw.sorted hp
+      by_cases hT : e.time ≤ T
+      · cases hxx : (exec (popped s e rest) e).raised.isSome with
+        | true =>
+          rw [runUntil_due_raised hp hT hxx] at hr
+          simp only [Option.some.injEq] at hr; subst hr
+          rw [hn] at hxx; simp at hxx
+        | false =>
+          rw [runUntil_due hp hT hxx] at hr
+          exact ih (exec_wf (popped_wf hw hp) e) hr
+      · rw [runUntil_late hp hT] at hr
+        simp only [Option.some.injEq] at hr; subst hr
+        intro y hy
+        rcases mem_insert.mp hy with rfl | hy
+        · show T < y.time; omega
+        · have := Ev.time_le_of_lt (hlt y hy); show T < y.time; omega
+
+/-- the trace of a run cut short by an exception `x` ends with the raising event: alive, executed at the clock the run stopped
+    at, and it is THAT event's program (the step body for a step event) that contains the `raise x` -/
+theorem runUntilT_aborted {f : Nat} {s s' : Sim} {T : Int} {tr : List (Ev × Nat)} {x : Exc} (h0 : s.raised = none)
+    (h : runUntilT f s T = some (s', tr)) (hx : s'.raised = some x) :
+    ∃ pre e n, tr = pre ++ [(e, n)] ∧ e.dead = false ∧ s'.now = e.time ∧
+      ((e.isStep = true ∧ Cmd.raise x ∈ s.stepProg) ∨ (e.isStep = false ∧ Cmd.raise x ∈ s.prog e.act)) := by
+  induction f generalizing s tr with
+  | zero => simp [runUntilT] at h
+  | succ f ih =>
+    cases hp : popLive s.pending with
+    | none =>
+      rw [runUntilT_none hp] at h
+      simp only [Option.some.injEq, Prod.mk.injEq] at h
+      have : s'.raised = s.raised := by rw [← h.1]
+      rw [this, h0] at hx; simp at hx
+    | some p =>
+      obtain ⟨e, rest⟩ := p
+      by_cases hT : e.time ≤ T
+      · have hp0 : (popped s e rest).raised = none := h0
+        cases hxx : (exec (popped s e rest) e).raised.isSome with
+        | true =>
+          rw [runUntilT_due_raised hp hT hxx] at h
+          simp only [Option.some.injEq, Prod.mk.injEq] at h
+          obtain ⟨rfl, rfl⟩ := h
+          obtain ⟨hd, hprog⟩ := exec_raised hp0 hx
+          exact ⟨[], e, s.nextId, rfl, hd, by rw [exec_now]; rfl, hprog⟩
+        | false =>
+          rw [runUntilT_due hp hT hxx] at h
+          cases h1 : runUntilT f (exec (popped s e rest) e) T with
+          | none => simp [h1] at h
+          | some q =>
+            obtain ⟨s₁, tr1⟩ := q
+            simp only [h1, Option.map_some, Option.some.injEq, Prod.mk.injEq] at h
+            obtain ⟨rfl, rfl⟩ := h
+            obtain ⟨pre, e', n, rfl, hd, hnow, hprog⟩ := ih (raised_none_of_isSome_false hxx) h1
+            have hprogs := exec_progs (popped s e rest) e
+            rw [hprogs.1, hprogs.2] at hprog
+            exact ⟨(e, s.nextId) :: pre, e', n, rfl, hd, hnow, hprog⟩
+      · rw [runUntilT_late hp hT] at h
+        simp only [Option.some.injEq, Prod.mk.injEq] at h
+        have : s'.raised = s.raised := by rw [← h.1]; rfl
+        rw [this, h0] at hx; simp at hx
+
+/-! ### progress for pieces: when the uninterrupted run to `T` terminates, so does every piece within `T`, and the rest of the
+    uninterrupted run after it (same fuel) -/
+
+theorem runUntilC_piece {g : Nat} {s s₂ : Sim} {t T : Int} (ht : t ≤ T) (hw : WF s) (h0 : s.raised = none)
+    (h : runUntilC g s T = some s₂) : ∃ s₁, runUntil g s t = some s₁ ∧ runUntilC g (caught s₁) T = some s₂ := by
+  induction g generalizing s with
+  | zero => simp [runUntilC] at h
+  | succ g ih =>
+    cases hp : popLive s.pending with
+    | none =>
+      rw [runUntilC_none hp] at h
+      refine ⟨_, runUntil_none hp, ?_⟩
+      rw [runUntilC_none (by rfl), ← h]
+      simp only [caught, skipped, List.takeWhile_nil, List.map_nil, List.append_nil, h0]
+    | some p =>
+      obtain ⟨e, rest⟩ := p
+      obtain ⟨hlive, hlt, hsr⟩ := popLive_spec hw.sorted hp
+      by_cases hT : e.time ≤ t
+      · have hT2 : e.time ≤ T := Int.le_trans hT ht
+        rw [runUntilC_due hp hT2] at h
+        cases hxx : (exec (popped s e rest) e).raised.isSome with
+        | true => exact ⟨_, runUntil_due_raised hp hT hxx, runUntilC_fuel_succ h⟩
+        | false =>
+          have hcalm := raised_none_of_isSome_false hxx
+          rw [caught_of_calm hcalm] at h
+          obtain ⟨s₁, h1, h2⟩ := ih (exec_wf (popped_wf hw hp) e) hcalm h
+          exact ⟨s₁, by rw [runUntil_due hp hT hxx]; exact h1, runUntilC_fuel_succ h2⟩
+      · refine ⟨_, runUntil_late hp hT, ?_⟩
+        have hpl : popLive (caught { popped s e rest with now := t, pending := insert e rest }).pending = some (e, rest) := by
+          show popLive (insert e rest) = some (e, rest)
+          rw [insert_of_all_lt e rest hlt, popLive_cons_live e rest hlive]
+        have hsk : skipped (insert e rest) = [] := by
+          rw [insert_of_all_lt e rest hlt]; exact skipped_cons_live hlive
+        by_cases hT2 : e.time ≤ T
+        · rw [runUntilC_due hp hT2] at h
+          rw [runUntilC_due hpl hT2, ← h]
+          simp only [popped, caught, hsk, List.map_nil, List.append_nil, h0]
+        · rw [runUntilC_late hp hT2] at h
+          rw [runUntilC_late hpl hT2, ← h]
+          simp only [popped, caught, hsk, List.map_nil, List.append_nil, h0]
+
+theorem runUntilC_next_piece {g : Nat} {s s₂ : Sim} {T : Int} (h0 : s.raised = none)
+    (hT : ∀ e rest, popLive s.pending = some (e, rest) → e.time ≤ T)
+    (h : runUntilC g s T = some s₂) : runUntilC g (caught (runNext s)) T = some s₂ := by
+  cases g with
+  | zero => simp [runUntilC] at h
+  | succ g =>
+    cases hp : popLive s.pending with
+    | none =>
+      rw [runUntilC_none hp] at h
+      have hrn : runNext s = { s with pending := [], gone := s.gone ++ (skipped s.pending).map (·.id) } := by
+        simp only [runNext, hp]
+      rw [hrn, runUntilC_none (by rfl), ← h]
+      simp only [caught, skipped, List.takeWhile_nil, List.map_nil, List.append_nil, h0]
+    | some p =>
+      obtain ⟨e, rest⟩ := p
+      rw [runUntilC_due hp (hT e rest hp)] at h
+      have hrn : runNext s = exec (popped s e rest) e := by simp only [runNext, hp, popped]
+      rw [hrn]
+      exact runUntilC_fuel_succ h
+
+/-- **progress for pieces**: if the uninterrupted run to `T` terminates with fuel `g`, then every list of pieces within `T`
+    (exceptions caught in between) terminates with that fuel, and the uninterrupted run from where the pieces end reaches the
+    same final state -/
+theorem pieces_of_runUntilC {g : Nat} {s s₂ : Sim} {T : Int} {ps : List Piece} (hw : WF s) (h0 : s.raised = none)
+    (hin : piecesWithinC g T s ps) (h : runUntilC g s T = some s₂) :
+    ∃ s₁, runPiecesC g s ps = some s₁ ∧ runUntilC g s₁ T = some s₂ := by
+  induction ps generalizing s with
+  | nil => exact ⟨s, rfl, h⟩
+  | cons p ps ih =>
+    obtain ⟨hp, hrest⟩ := hin
+    have key : ∃ sm, runPieceC g s p = some sm ∧ WF sm ∧ sm.raised = none ∧ runUntilC g sm T = some s₂ := by
+      cases p with
+      | «until» t =>
+        obtain ⟨s₁, h1, h2⟩ := runUntilC_piece hp hw h0 h
+        exact ⟨caught s₁, by simp [runPieceC, runPiece, h1], caught_wf (runUntil_wf hw h1), rfl, h2⟩
+      | «for» d =>
+        obtain ⟨s₁, h1, h2⟩ := runUntilC_piece hp hw h0 h
+        exact ⟨caught s₁, by simp [runPieceC, runPiece, runFor, h1], caught_wf (runUntil_wf hw h1), rfl, h2⟩
+      | next =>
+        exact ⟨caught (runNext s), by simp [runPieceC, runPiece], caught_wf (runNext_wf hw), rfl, runUntilC_next_piece h0 hp h⟩
+    obtain ⟨sm, hsm, hwm, hcm, hum⟩ := key
+    obtain ⟨s₁, h1, h2⟩ := ih hwm hcm (hrest sm hsm) hum
+    exact ⟨s₁, by simp only [runPiecesC, hsm]; exact h1, h2⟩
+
 end Mesa.Devs
